@@ -458,6 +458,13 @@ pub fn phase(args: &Args, master: &Path) -> Report {
         if args.thorough { "{0,1,2,3,10,100,5000}" } else { "{0,1,2,3,10,100}" },
         special_names().len()
     );
+    for part in [crate::forged::run_all(args, master), crate::dirhandle::run_all(args, master)] {
+        r.merge(part);
+    }
+    r.rule.push_str(" ");
+    r.rule.push_str(&crate::forged::rule());
+    r.rule.push_str(" ");
+    r.rule.push_str(&crate::dirhandle::rule(args.thorough));
     r.bound("cases", n);
     r.bound("max_entries_in_multiset", maxk);
     r.bound("getdents_buffer", 512);
